@@ -420,6 +420,8 @@ def run(tier):
     _l.limb_split_consistent(chk, ['src/rsa/'])
     from .. import siblings as _sib
     _sib.check(chk, ['src/rsa/'], floor=10)
+    from .. import siblings as _sib
+    _sib.check_group(chk, 'i31/i32', floor=8)
     from .. import lints as _lints_ir
     _lints_ir.ignored_result_regression(chk, ['src/rsa/', 'src/int/'])
     return chk.finish()
